@@ -29,7 +29,10 @@ HOSTILE_LITERALS = ['select', 'SELECT * FROM a', 'where x', '* ,', ' as x', 'ord
                     # replacement patterns of JavaScript's String.replace / replaceAll and of Python's str.format / % / re.sub: literal text is opaque to all of them
                     '$$', '<$&>', 'US$', '$`x', "a$'b", '$1', '{}', '{0}', '%s', '%(x)s', '\\1', '\\g<0>',
                     # a literal whose content ENDS in backslashes (written doubled): the closing quote must still be found
-                    'dir\\', '\\', '\\\\', 'a\\ where ', "it's\\"]
+                    'dir\\', '\\', '\\\\', 'a\\ where ', "it's\\",
+                    # characters that str.splitlines() / a JavaScript line-terminator test take for line breaks, RAW inside the literal: the line clean-up of the query
+                    # text (comment lines, stripping) must not reach into a literal
+                    'L\x0cR', 'v\x0bt', 'fs\x1cx', 'gs\x1d', 'rs\x1ey', 'n\x85m', 'u\u2028v', 'p\u2029#q', '\x0c#not a comment']
 
 
 def gen_parse_texts(rnd, n):
